@@ -2,7 +2,7 @@
 # ingest_seed2.sh <property id> <a|b> <name>: copy a round-2 sub-agent deliverable from
 # /tmp/seed2/<id>/_out/<a|b>/ into /verif/seeded/<name>/ and evaluate it (tools/seed_meta.py).
 set -eu
-ID="$1"; V="$2"; NAME="$3"; SRC="/tmp/seed2/$ID/_out/$V"; DST="/verif/seeded/$NAME"
+ID="$1"; V="$2"; NAME="$3"; SRC="${SEED_BASE:-/tmp/seed2}/$ID/_out/$V"; DST="/verif/seeded/$NAME"
 mkdir -p "$DST"
 cp "$SRC/patch.diff" "$DST/patch.diff"
 [ -f "$SRC/NOTES.md" ] && cp "$SRC/NOTES.md" "$DST/NOTES.md"
